@@ -103,7 +103,7 @@ func (c capCC) ClientCredentialsTokenRequest(ctx context.Context, clientID strin
 	if s.Clients[clientID] == nil {
 		return nil, notFound{"client"}
 	}
-	return &ccRequest{client: clientID, scopes: append([]string(nil), scopes...)}, nil
+	return &ccRequest{client: clientID, scopes: append([]string(nil), scopes...), emptyAud: s.EmptyAudience}, nil
 }
 
 type capTE struct{ s *Store }
